@@ -185,6 +185,43 @@ CLAIMS = {
              "path of generate_func_code (mir-gen.c) is not encoded.  <= 3 (quick) / 5 (thorough) insns, <= 2/3 generator edits and temps per cycle, "
              "2 cycles, <= 2 lref items.  State constructed directly; HTAB model.",
         technique=TECH),
+    "C02": dict(
+        level="model_checking", design="DESIGN.md section 3, C02 and section 8",
+        text="Per opcode and operand shape (one tiny MIR function each, generated from the opcode list of /repo/mir.c): (1) the REAL interpreter (eval) "
+             "on the icode produced by the REAL MIR_link/generate_icode (so the link-time shortcuts are included) and (2) the machine code emitted by "
+             "the REAL generator at -O2 and -O0 (quick) / -O0..-O3 (thorough), lifted to C (E3), are run from ALL operand values (64-bit integers, "
+             "all float/double/long-double bit patterns, arbitrary memory contents) and compared with ref/mir_ref.h, written from MIR.md: width, "
+             "signedness, extension of narrow loads, truncation of stores, NaN comparisons, overflow-flag branches, conversions.",
+        note="Immediates are compile-time constants: boundary grid.  Undefined cases per MIR.md assumed away; 32-bit results compared on the low half.  "
+             "Interpreter built with the repo's MIR_DIRECT_DISPATCH switch.  Interpreter-leg obligations for DMUL/DDIV/LD* arithmetic and mulo-family "
+             "flags got no verdict with any back end and are excluded from both tiers (listed in the evidence; the generated-code leg decides the same "
+             "opcodes with z3 --fpa).  long double = CBMC binary128 on all sides; builtins ui2f/ui2d/ui2ld/ld2i modelled by their C semantics; trusted "
+             "base of E3 as C05.",
+        technique=TECH + "; real interpreter on dumped icode and lifted machine code vs documentation-derived reference"),
+    "C01": dict(
+        level="translation_validation", design="DESIGN.md section 3, C01 and section 8",
+        text="For every function of a corpus and every optimisation level (quick: 0 and 2; thorough: 0-3) ONE CBMC run executes the real interpreter on "
+             "the dumped icode (E2) and the lifted machine code the real generator emitted for that function at that level (E3) on the same C memory "
+             "from the same symbolic arguments, buffer contents and external results, and asserts equal results, equal final memory and equal "
+             "external-call logs - for ALL inputs within the loop bounds.  Corpus: 9 mir-tests, hand-written files and 8 generated families (CFG "
+             "shapes incl. switch/laddr/jmpi, memory operand forms with aliasing stores/loads, register pressure > 14 int / 14 fp, alloca, overflow "
+             "insns, 64/32-bit/f/d mixes, calls with live results, GVN-foldable constants incl. never-executed trapping divisions).",
+        note="Programs outside the corpus; <= 60 insns, trip counts <= 4, <= 200 executed icode insns per activation, depth <= 3, <= 4 external calls; "
+             "compile-time constants concrete (the symbolic-constant fold sub-check of DESIGN section 3 is not built); blk types, variadic definitions, "
+             "long double data and mir-tests 3/9/10/11/13/15/16 excluded (reasons in the evidence); lazy-BB code is C03's non-claim.  Trusted base as C05.",
+        technique=TECH + "; per-program equivalence of interpreter and lifted generated code via cbmc --paths"),
+    "C13": dict(
+        level="model_checking", design="DESIGN.md section 3, C13 and section 8",
+        text="Bounded model checking of the real add_item, setup_global, MIR_load_module (data and function branches), MIR_load_external, item table "
+             "functions and MIR_link (resolution loops, resolver fallback, undefined-import error) on directly constructed modules: every history of "
+             "<= 4 steps (one name) / 3 steps (two names) from {load M1..M3, load_external, link with/without resolver} is one solver path; after each "
+             "link every import of a module linked in that step is bound to the definition loaded last before the step (abstract map oracle), earlier "
+             "bindings stay, undefined imports and second exported functions end in the documented error; add_item merging rules for all kind sequences "
+             "of length 3.",
+        note="Module SHAPES are enumerated (multisets / orthogonal array of 5 shapes per name), histories exhaustive within the step bound via cbmc "
+             "--paths; thunk creation and set_interface are stubs (which body runs is C01/C03); HTAB abstract-map model (C19), constant hash; "
+             "MIR_change_module_ctx and ref/lref/expr data outside.",
+        technique=TECH + "; exhaustive path enumeration of load/link histories"),
 }
 
 NOT_APPLICABLE = {
